@@ -8,10 +8,10 @@
       dumps/loads = chuk_mcp.protocol.fast_json (orjson, stdlib fallback)
     each returning [None] when it raises.  The only assumption placed on them
     for the framing theorems is that a compact dump contains no LF / CR code
-    point ([has_break t = false]); Proofs/StdioJsonEnc.v exhibits an encoder
-    with that property.  [Recompact] is the writer with
-    fixes/C06-raw-string-line-breaks.patch applied, [Verbatim] the writer at
-    /repo HEAD, for which the full statement is refuted (C06_..._refuted) and
+    point ([has_break t = false]); Proofs/JsonEncClean.v exhibits an encoder
+    with that property.  [Recompact] is the writer at /repo HEAD
+    (fixes/C06-raw-string-line-breaks.patch is applied there as a fix: commit),
+    [Verbatim] the writer before that fix, for which the full statement is refuted (C06_..._refuted) and
     the strongest true restriction proved (C06_..._partial). *)
 From Verif.Base Require Import Prelude StdioUtf8.
 From Verif.Model Require Import StdioOut.
@@ -62,13 +62,13 @@ Print Assumptions C06_no_raw_linebreak_inside_line.
     strings included, is exactly one newline-terminated line. *)
 Definition C06_every_write_one_line_statement : Prop := every_write_one_line Verbatim.
 
-(** ... is FALSE for the writer at /repo HEAD: the pre-serialised string
+(** ... is FALSE for the writer before the fix: the pre-serialised string
     "{\n}" is forwarded verbatim as two lines. *)
 Theorem C06_every_write_one_line_refuted : ~ C06_every_write_one_line_statement.
 Proof. exact every_write_one_line_verbatim_refuted. Qed.
 Print Assumptions C06_every_write_one_line_refuted.
 
-(** ... holds at HEAD for every sequence whose pre-serialised strings carry no
+(** ... holds before the fix for every sequence whose pre-serialised strings carry no
     line break (strongest true restriction) ... *)
 Theorem C06_every_write_one_line_partial :
   forall model value dump_json model_dump dumps loads,
@@ -149,7 +149,7 @@ Print Assumptions C06_oracle_reflects.
 (** Non-vacuity: a toy codec meeting the single-line hypothesis ([toy_dumps]
     deletes LF/CR, [loads] = identity), a dict, an unserialisable typed
     message, a pretty-printed pre-serialised string "{\n}" and an astral
-    character: HEAD writes 4 lines for 3 messages, the patched writer 3. *)
+    character: the pre-fix writer writes 4 lines for 3 messages, the writer at HEAD 3. *)
 Example C06_nonvacuous :
   let W := writes unit str (fun _ => None) (fun _ => None) toy_dumps (fun t => Some t) in
   let msgs := [Dict [34; 128512; 34]; Typed tt; Raw [123; 10; 125]; Other [49]] in
